@@ -4,6 +4,8 @@ CONSTANTS
   MaxDocs = 3
   MaxEdits = 2
   SharedTokens = TRUE
+  LeftoverRunBuffer = FALSE
+  MaxFails = 1
 SPECIFICATION Spec
 INVARIANT UnmodifiedLossless
 CHECK_DEADLOCK FALSE
